@@ -243,10 +243,11 @@ def zeroSel (n : Nat) (ix : Idx) : Except Err (List Nat) :=
     | .ok (_, p) => .ok p
     | .error e => .error e
 
-/-- `__setitem__` (lines 174-184); `valIsZero` is `value == 0.0` -/
+/-- `__setitem__` (lines 174-188, after the repair 9b72248); `valIsZero` is `value == 0.0` -/
 def setitem (C : Carrier α) (i0 i1 : Idx) (valIsZero : Bool) : Except Err (Carrier α) :=
   if !valIsZero then .error .ValueError
   else if !i0.isNull && !i1.isNull then .error .IndexError
+  else if i0.isNull && i1.isNull then .ok { C with u := [], v := [] }   -- `A[:, :] = 0`: all dyads are dropped (9b72248)
   else if C.u.isEmpty || C.v.isEmpty then .ok C     -- zip loop does not run: nothing is indexed
   else do
     let pu ← zeroSel C.ulen.toNat i0
